@@ -42,6 +42,11 @@ _A = ['Type 1/2: the on-demand loading of the memory reader (16-byte READ / RALL
       'harness builds layouts independently from a grammar and checks for each that wf_layout holds and that the NDEF TLV '
       'offset, capacity and room the model sees are the generator\'s; a reserved range that makes the value of a TLV in front '
       'of the NDEF TLV run into the NDEF TLV\'s length/value bytes is not well-formed (l_hw <= l_off)',
+      'Type 1/2: the models follow the tree after the repairs fixes/c01-tt*, c02-tt2-*, c03-tt2-* and after the reader repairs '
+      'fixes/c08-12 .. c08-16 (read errors inside a TLV end the Type 1 walk, control TLVs need length 3, an NDEF TLV that does '
+      'not fit the data area / capacity is not reported); on a tree without them the correspondence on damaged layouts and on '
+      'some cut states breaks',
+      'Type 1: memory of at most 2048 bytes (16 segments)',
       'Type 1/2: NXP / Broadcom product classes (NTAG203/213/215/216, Ultralight, Topaz, Topaz-512) are reached through '
       'nfc.tag.activate and share the generic read/write code; their read-protection / password features are not exercised']
 ASSUMPTIONS = {'C01': _A,
